@@ -115,6 +115,18 @@ def telecentric(c):
     D1 = dir_of(c, r1)
     c.ensure_eq('C03.telecentric.marginal_sine_is_NA', D1[1], apv)
     c.ensure_eq('C03.telecentric.unit', norm2(D1), 1)
+    # any pupil point, skew ones included: the slopes are (Px, Py) tan(theta_max) with sin(theta_max) = NA, i.e. the direction
+    # is parallel to (Px NA, Py NA, sqrt(1 - NA^2)) -- a circular cone whose rim carries the stated NA
+    Px, Py = c.real('Px', -1.0, 1.0), c.real('Py', -1.0, 1.0)
+    c.require(Px * Px + Py * Py <= 1)
+    r2 = lens.ray_generator.generate_rays(0.0, Hy, c.arr(Px), c.arr(Py), 0.55)
+    D2 = dir_of(c, r2)
+    cz = c.sqrt(1 - apv * apv)
+    cr = cross(D2, (Px * apv, Py * apv, cz))
+    for i in range(3):
+        c.ensure_eq('C03.telecentric.direction_for_any_pupil_point', cr[i], 0)
+    c.ensure_eq('C03.telecentric.unit', norm2(D2), 1)
+    c.ensure('C03.telecentric.leaves_towards_the_lens', D2[2] > 0)
 
 
 def _reject_contract(finite, ap, field, tele):
